@@ -15,7 +15,10 @@
  * Keys are 4 concrete values chosen by spec.py (collide at 1 bit, split at 2 and 3 bits) so the
  * 64-bit universal hash is constant-folded; WHICH key is operated on is symbolic (if-chain).
  * After the operation: result vs. model, contents = model, INV re-established (closure), resize
- * happened iff the documented trigger fired.  OP selects the operation kind (one query each). */
+ * happened iff the documented trigger fired, an old table emptied by the operation is unlinked.
+ * OP selects the operation kind; the table SHAPE (T, lk[]) is one of 7, fixed per query by spec.py (-DSHAPE=n) or chosen
+ * by an if-chain in main, so that every table-level pointer is a constant on each path (a symbolic table pointer makes
+ * CBMC rewrite every bucket array on each store); item pointers, contents, order, hint, key stay symbolic. */
 #include "ht_common.h"
 
 /* ---------- pre-state ---------- */
